@@ -554,6 +554,22 @@ func toV3AdditionalProperties(from openapi3.AdditionalProperties) openapi3.Addit
 	}
 }
 
+// fromV3AdditionalProperties rewrites the references of an additionalProperties schema to OpenAPI 2 locations.
+func fromV3AdditionalProperties(from openapi3.AdditionalProperties) openapi3.AdditionalProperties {
+	to := openapi3.AdditionalProperties{Has: from.Has}
+	if from.Schema != nil {
+		s := *from.Schema
+		s.Ref = FromV3Ref(s.Ref)
+		if s.Value != nil {
+			v := *from.Schema.Value
+			v.AdditionalProperties = fromV3AdditionalProperties(v.AdditionalProperties)
+			s.Value = &v
+		}
+		to.Schema = &s
+	}
+	return to
+}
+
 func convertRefsInV3SchemaRef(from *openapi3.SchemaRef) *openapi3.SchemaRef {
 	if from == nil {
 		return nil
@@ -926,6 +942,10 @@ func FromV3SchemaRef(schema *openapi3.SchemaRef, components *openapi3.Components
 	if v := schema.Value.Items; v != nil {
 		v2Schema.Items, _ = FromV3SchemaRef(v, components)
 	}
+	if v := schema.Value.Discriminator; v != nil {
+		v2Schema.Discriminator = v.PropertyName
+	}
+	v2Schema.AdditionalProperties = fromV3AdditionalProperties(schema.Value.AdditionalProperties)
 
 	keys := make([]string, 0, len(schema.Value.Properties))
 	for k := range schema.Value.Properties {
